@@ -118,6 +118,23 @@ def convert_fact(f):
             S += b // gg
             T += a // gg
         return {"op": "gcd", "x": L(a, b, g, a // g, b // g, S, T), "n": n}
+    if op == "xgcd":
+        a, b, g, ax, ay = x
+        if g == 0:
+            return flag(a == 0 and b == 0, "xgcd returned 0")
+        return {"op": "xgcd", "x": L(a, b, g, ax, ay, a // g, b // g), "n": n}
+    if op == "coprime":
+        a, b, g = x
+        if g == 0:
+            return flag(False, "gcd returned 0")
+        gg, s_, t_ = egcd(a, b)
+        S, T = (s_, -t_) if s_ >= 0 else (-s_, t_)
+        while S < 0 or T < 0:
+            S += b // gg
+            T += a // gg
+        return {"op": "coprime", "x": L(a, b, g, a // g, b // g, S, T), "n": n}
+    if op == "naf":
+        return {"op": "naf", "x": [], "n": [int(f["v"])], "t": [int(v) for v in f["terms"]]}
     if op == "dot":
         m, r = x
         a = [int(v) for v in f["a"]]
@@ -299,7 +316,7 @@ def convert_rns(f):
 
 
 def describe(f):
-    d = {k: v for k, v in f.items() if k in ("op", "x", "n", "e", "a", "b", "variant", "ok", "r", "m")}
+    d = {k: v for k, v in f.items() if k in ("op", "x", "n", "e", "a", "b", "variant", "ok", "r", "m", "v", "terms")}
     return d
 
 
